@@ -337,43 +337,37 @@ func runC12(p *core.Prog, r *core.Report) {
 			ok := a1.Fields[start] && hasFieldNamed(a2, "StopBlockNum") && a4.HasCall(p.FuncObj(pkgPipe, "reprocStateRequired"))
 			r.Check(ok, "C12.R2", "BuildRequestDetails/handoff-args", "the hand-off is computed from the resolved start block, the request's stop block and the lowest store needing history", "argument provenance differs", p.Pos(c.Pos()))
 		}
-	})
-	r.Guard("C12.R2", "tier1.blocks", "stream bounds", func() {
-		fn := p.Func(pkgSvc, "Tier1Service.blocks")
-		r.Touch(core.FuncName(fn))
-		rd := p.Named(pkgReqctx, "RequestDetails")
-		hand, start, stop := core.FieldOf(rd, "LinearHandoffBlockNum"), core.FieldOf(rd, "ResolvedStartBlockNum"), core.FieldOf(rd, "StopBlockNum")
-		sff := p.Field(pkgSvc, "Tier1Service", "streamFactoryFunc")
-		n := 0
-		core.Instrs(fn, func(in ssa.Instruction) {
-			c, ok := in.(*ssa.Call)
-			if !ok {
+		// the lowest store needing history is searched below the RESOLVED start (the cursor's, when there is one), among
+		// the stores the requested output module depends on
+		rsr := p.FuncObj(pkgPipe, "reprocStateRequired")
+		for _, c := range core.FindInstrs(fn, core.IsCallTo(rsr)) {
+			args := c.(ssa.CallInstruction).Common().Args
+			a0 := core.Trace(args[0], 0)
+			ok := a0.Fields[start] && !hasFieldNamed(a0, "StartBlockNum") && hasFieldNamed(core.Trace(args[1], 0), "OutputModule") && hasFieldNamed(core.Trace(args[2], 0), "Modules")
+			r.Check(ok, "C12.R2", "BuildRequestDetails/reproc-args", "stores needing history are those starting below the resolved start block (cursor-resolved, not the request's raw start) among the ancestors of the requested output module", "argument provenance differs", p.Pos(c.Pos()))
+		}
+		rf := p.Func(pkgPipe, "reprocStateRequired")
+		okCand, okCmp := false, false
+		sdt := p.FuncObj(pkgMani, "ModuleGraph.StoresDownTo")
+		for _, c := range core.FindInstrs(rf, core.IsCallTo(sdt)) {
+			if core.SkipConv(c.(ssa.CallInstruction).Common().Args[1]) == ssa.Value(rf.Params[1]) {
+				okCand = true
+			}
+		}
+		initF := core.FieldOf(p.Named(pkgPBV1, "Module"), "InitialBlock")
+		core.Instrs(rf, func(in ssa.Instruction) {
+			ifi, isIf := in.(*ssa.If)
+			if !isIf {
 				return
 			}
-			if f, _ := core.LoadedField(c.Call.Value); f == sff {
-				n++
-				a2 := core.Trace(c.Call.Args[2], 0)
-				a3 := core.Trace(c.Call.Args[3], 0)
-				r.Check(a2.Fields[hand] && !a2.Fields[start], "C12.R2", "tier1.blocks/stream-start", "the linear block stream starts at the hand-off block", "start argument does not come from LinearHandoffBlockNum", p.Pos(c.Pos()))
-				r.Check(hasFieldNamed(a3, "StopBlockNum"), "C12.R2", "tier1.blocks/stream-stop", "the linear block stream stops at the request's stop block", "stop argument does not come from StopBlockNum", p.Pos(c.Pos()))
+			onT, onF, okc := core.CondRelation(ifi.Cond, func(v ssa.Value) bool { f, _ := core.LoadedField(core.SkipConv(v)); return f == initF }, func(v ssa.Value) bool { return core.SkipConv(v) == ssa.Value(rf.Params[0]) })
+			if okc && (onT == core.OrdLT || onF == core.OrdLT) {
+				okCmp = true
 			}
 		})
-		if n != 1 {
-			core.Undecide("tier1.blocks: %d stream factory calls", n)
-		}
-		for _, c := range core.FindInstrs(fn, core.IsCallTo(p.FuncObj(pkgPlan, "BuildTier1RequestPlan"))) {
-			args := c.(ssa.CallInstruction).Common().Args
-			want := []*types.Var{nil, nil, nil, nil, start, hand, stop, nil}
-			ok := true
-			for i, w := range want {
-				if w != nil && !core.Trace(args[i], 0).Fields[w] {
-					ok = false
-				}
-			}
-			okInit := core.Trace(args[2], 0).HasCall(p.FuncObj(pkgExec, "Graph.LowestInitBlock")) && core.Trace(args[3], 0).HasCall(p.FuncObj(pkgExec, "Graph.LowestStoresInitBlock"))
-			r.Check(ok && okInit, "C12.R2", "tier1.blocks/plan-args", "the plan is built from the same resolved start, hand-off and stop as the stream, and from the graph's lowest (store) initial blocks", "argument provenance differs", p.Pos(c.Pos()))
-		}
+		r.Check(okCand && okCmp, "C12.R2", "reprocStateRequired/candidates", "the candidates are StoresDownTo(output module) and a store needs history exactly when its initial block is strictly below the start block", fmt.Sprintf("candidates from StoresDownTo(output)=%v, strict comparison with the start parameter=%v", okCand, okCmp), p.Pos(rf.Pos()))
 	})
+	checkTier1StreamBounds(p, r, "C12.R2")
 
 	// ------------------------------------------------------------------ R3
 	r.Guard("C12.R3", "errors", "impossible requests are errors", func() { checkImpossibleRequests(p, r) })
@@ -417,7 +411,7 @@ func runC12(p *core.Prog, r *core.Report) {
 		r.Check(okCeil, "C12.R5", "computeLinearHandoffBlockNum/ceil", "rounding the stop block up adds the segment size only when the remainder is non-zero (ceil, not floor+size)", "guarded ceil idiom not found", p.Pos(fn.Pos()))
 	})
 	r.MinInstances("C12.R1", 4)
-	r.MinInstances("C12.R2", 10)
+	r.MinInstances("C12.R2", 12)
 	r.MinInstances("C12.R3", 5)
 	r.MinInstances("C12.R5", 7)
 }
@@ -860,4 +854,46 @@ func reachWithin(l *core.Loop, b, to *ssa.BasicBlock) bool {
 		stack = append(stack, x.Succs...)
 	}
 	return false
+}
+
+// checkTier1StreamBounds (C12.R2, C04.R6): tier1 starts the linear stream at the hand-off, stops it at the stop block and
+// builds the plan (hence the range served from cached outputs) from the same resolved numbers — in particular from
+// the cursor-resolved start block, not the request's raw start block.
+func checkTier1StreamBounds(p *core.Prog, r *core.Report, rule string) {
+	r.Guard(rule, "tier1.blocks", "stream bounds", func() {
+		fn := p.Func(pkgSvc, "Tier1Service.blocks")
+		r.Touch(core.FuncName(fn))
+		rd := p.Named(pkgReqctx, "RequestDetails")
+		hand, start, stop := core.FieldOf(rd, "LinearHandoffBlockNum"), core.FieldOf(rd, "ResolvedStartBlockNum"), core.FieldOf(rd, "StopBlockNum")
+		sff := p.Field(pkgSvc, "Tier1Service", "streamFactoryFunc")
+		n := 0
+		core.Instrs(fn, func(in ssa.Instruction) {
+			c, ok := in.(*ssa.Call)
+			if !ok {
+				return
+			}
+			if f, _ := core.LoadedField(c.Call.Value); f == sff {
+				n++
+				a2 := core.Trace(c.Call.Args[2], 0)
+				a3 := core.Trace(c.Call.Args[3], 0)
+				r.Check(a2.Fields[hand] && !a2.Fields[start], rule, "tier1.blocks/stream-start", "the linear block stream starts at the hand-off block", "start argument does not come from LinearHandoffBlockNum", p.Pos(c.Pos()))
+				r.Check(hasFieldNamed(a3, "StopBlockNum"), rule, "tier1.blocks/stream-stop", "the linear block stream stops at the request's stop block", "stop argument does not come from StopBlockNum", p.Pos(c.Pos()))
+			}
+		})
+		if n != 1 {
+			core.Undecide("tier1.blocks: %d stream factory calls", n)
+		}
+		for _, c := range core.FindInstrs(fn, core.IsCallTo(p.FuncObj(pkgPlan, "BuildTier1RequestPlan"))) {
+			args := c.(ssa.CallInstruction).Common().Args
+			want := []*types.Var{nil, nil, nil, nil, start, hand, stop, nil}
+			ok := true
+			for i, w := range want {
+				if w != nil && !core.Trace(args[i], 0).Fields[w] {
+					ok = false
+				}
+			}
+			okInit := core.Trace(args[2], 0).HasCall(p.FuncObj(pkgExec, "Graph.LowestInitBlock")) && core.Trace(args[3], 0).HasCall(p.FuncObj(pkgExec, "Graph.LowestStoresInitBlock"))
+			r.Check(ok && okInit, rule, "tier1.blocks/plan-args", "the plan is built from the same resolved start, hand-off and stop as the stream, and from the graph's lowest (store) initial blocks", "argument provenance differs", p.Pos(c.Pos()))
+		}
+	})
 }
